@@ -124,6 +124,8 @@ fn kv_line(t: &mut Tape, key: &str, class: usize) -> String {
 const FILES: &[&str] = &[
     "\"bg.jpg\"", "bg.png", "\"v.mp4\"", "\"V.AVI\"", "\"a\\\\b.jpg\"", "\"\"", "ab", "\"\u{e9}.jpg\"", "\"x.m4v \"", "\"clip.MoV\"", "\"pic.flv.png\"",
     "\"sub\\dir\\bg.jpg\"", "", "\"a b.jpeg\"", "x.wmv", "\"mpg\"",
+    // names whose length changes under case mapping (Kelvin sign 3 -> 1 byte, dotted capital I 2 -> 3, sharp S)
+    "\"\u{212a}\u{212a}.avi\"", "\"\u{130}\u{130}.AVI\"", "\"\u{1e9e}.Mp4\"", "\"\u{212a}.png\"", "\u{212a}\u{212a}\u{212a}",
     // names that are non-empty but blank, or padded
     "\" \"", " ", "\t", "\"\u{3000}\"", "\" bg.jpg\"", " \"bg2.jpg\" ", "\"\t\"",
 ];
